@@ -514,6 +514,20 @@ fn check_completed_step(
             ),
         ));
     }
+    // 2b. the same data kept as a hash set of the library's own payload values
+    //     (relying on their Eq/Hash) must agree
+    let shadow = t.shadow_as_dataset();
+    if shadow != t.data {
+        let odd: Vec<_> = shadow.iter().filter(|(k, v)| t.data.get(*k) != Some(*v)).take(3).collect();
+        return Err(Violation::new(
+            "payload-identity",
+            "",
+            format!(
+                "{}: a target that keeps the items in a HashSet<Payload> ends up with {} items where applying the same announcements and withdrawals by value gives {}; e.g. {:?} (Eq/Hash of the payload types disagree with their fields)",
+                who, shadow.len(), t.data.len(), odd
+            ),
+        ));
+    }
     // 3. exactness of diffs: probes only
     if applied.duplicate_announce > 0 {
         sh.bump("probe_duplicate_announce");
@@ -592,7 +606,7 @@ async fn router(sh: Arc<Shared>, r: RouterCfg) {
             };
             if let Some(k) = pick {
                 let set = sh.source.set_at(k).unwrap();
-                target.0.lock().unwrap().data = restrict(&set, want_v);
+                target.0.lock().unwrap().seed(restrict(&set, want_v), || ctx.chance(1, 2));
                 state = Some(k);
             }
         }
@@ -605,7 +619,7 @@ async fn router(sh: Arc<Shared>, r: RouterCfg) {
             // reserve it so that no later restart re-uses this session id
             i.used_sessions.push(foreign);
             let k = (foreign, i.serial.wrapping_sub(ctx.choose(3) as u32));
-            target.0.lock().unwrap().data = restrict(&i.current, want_v);
+            target.0.lock().unwrap().seed(restrict(&i.current, want_v), || ctx.chance(1, 2));
             state = Some(k);
         }
     }
@@ -630,7 +644,19 @@ async fn router(sh: Arc<Shared>, r: RouterCfg) {
                 calls_before: sh.source.inner.lock().unwrap().calls.len(),
                 state_before: client.state().map(state_key),
             };
-            let res = client.step().await;
+            // mostly step(); sometimes the public reset() + apply() pair
+            // ("forced resync"), which must leave the client in the same
+            // relation to the source as any other completed step
+            let forced = ctx.chance(1, 8);
+            let res = if forced {
+                sh.bump("probe_forced_reset_via_public_api");
+                match client.reset().await {
+                    Ok(update) => client.apply(update).await,
+                    Err(e) => Err(e),
+                }
+            } else {
+                client.step().await
+            };
             let w = StepWindow { read_end: conn.s2c.lock().unwrap().n_read as usize, ..w };
             let state_after = client.state().map(state_key);
             match res {
@@ -692,7 +718,7 @@ async fn router(sh: Arc<Shared>, r: RouterCfg) {
                     // Reconnect, reusing whatever the client says its state is
                     // (documented use of Client::state()), or from scratch.
                     state = if ctx.chance(1, 4) {
-                        target.0.lock().unwrap().data.clear();
+                        target.0.lock().unwrap().seed(DataSet::new(), || false);
                         None
                     } else if target_rejected {
                         // the caller knows its target refused the update: the
